@@ -270,11 +270,18 @@ Proof.
   apply nth_error_nth'. apply Nat.mod_upper_bound. exact Hn.
 Qed.
 
+(* the index arithmetic does not wrap: holds because Consts.v records a 64-bit int index *)
+Lemma wrap_v1_id x : wrap_at v1_index_wrap x = x. Proof. reflexivity. Qed.
+Lemma wrap_v2_id x : wrap_at v2_index_wrap x = x. Proof. reflexivity. Qed.
+
+Lemma index_no_wrap : v1_index_wrap = 0%N /\ v2_index_wrap = 0%N.
+Proof. split; reflexivity. Qed.
+
 Lemma v1_list_spec h ring r i : ring <> [] ->
   v1_list h ring r (N.of_nat i) = Some (v1_spec_list h ring r i).
 Proof.
   intros Hne. unfold v1_list, v1_spec_list, nseq. rewrite map_map.
-  apply all_some_map. intros j _. rewrite ring_at_spec by exact Hne.
+  apply all_some_map. intros j _. rewrite wrap_v1_id, ring_at_spec by exact Hne.
   unfold slot. do 2 f_equal. lia.
 Qed.
 
